@@ -86,6 +86,34 @@ fn harvest_one(sd_jwt: &str, fmt: Fmt, h: &mut Harvest, ctxd: &dyn Fn() -> Value
                     h.problems.push(("salt-not-base64url-of-16-bytes".into(), format!("salt {salt:?} is not base64url of >= 16 bytes"), json!({"disclosure": text, "ctx": ctxd()})));
                 }
                 h.salts.push(salt.to_string());
+                // a salt must not be computable from the disclosure it protects: compare with the
+                // leading 16 bytes of SHA-256 over the obvious texts (value, name, name+value, the
+                // disclosure without its salt, the digests it embeds)
+                if let Ok(sb) = model::b64d(salt) {
+                    if sb.len() >= 16 {
+                        use sha2::Digest;
+                        let val = arr.last().cloned().unwrap_or(Value::Null);
+                        let name = if arr.len() == 3 { arr[1].as_str().unwrap_or("").to_string() } else { String::new() };
+                        let after_salt = text.find(salt).map(|i| text[i + salt.len()..].to_string()).unwrap_or_default();
+                        let mut cands: Vec<String> = vec![val.to_string(), name.clone(), format!("{name}{val}"), format!("{name}:{val}"), after_salt.clone(), after_salt.trim_start_matches(['"', ',', ' ']).to_string()];
+                        if let Some(s) = val.as_str() {
+                            cands.push(s.to_string());
+                        }
+                        if let Ok(p) = serde_json::to_string_pretty(&val) {
+                            cands.push(p);
+                        }
+                        for c in cands {
+                            if c.is_empty() {
+                                continue;
+                            }
+                            for dg in [sha2::Sha256::digest(c.as_bytes()).to_vec(), sha2::Sha512::digest(c.as_bytes()).to_vec()] {
+                                if dg[..16] == sb[..16] || dg[dg.len() - 16..] == sb[..16] {
+                                    h.problems.push(("salt-derived-from-content".into(), "a salt equals a hash of the content it protects".into(), json!({"disclosure": text, "hashed_text": c, "ctx": ctxd()})));
+                                }
+                            }
+                        }
+                    }
+                }
             }
             None => h.problems.push(("disclosure-without-string-salt".into(), "first element of a disclosure is not a string".into(), json!({"disclosure": text, "ctx": ctxd()}))),
         }
@@ -129,7 +157,7 @@ fn harvest_one(sd_jwt: &str, fmt: Fmt, h: &mut Harvest, ctxd: &dyn Fn() -> Value
 
 fn claims_for(r: &mut Rng, same: bool, thread: u32, i: u64) -> Value {
     let mut v = json!({
-        "iss": "https://issuer.example/A", "exp": 4_000_000_000u64,
+        "iss": "https://issuer.example/A", "exp": 4_000_000_000u64, "jti": "urn:uuid:6c5c0a49-b589-431d-bae7-219122a9ec2c", "sub": "user-42", "nonce": "n-0S6_WzA2Mj",
         "name": "Erika Mustermann", "address": {"street": "Heidestr. 17", "city": "Köln", "geo": {"lat": 50.9, "lon": 6.9}},
         "nationalities": ["DE", "FR", ["x", "y"]], "items": [{"a": 1}, {"b": [1, 2]}], "flag": true, "none": null,
         // names that read like paths of other claims: every disclosure still needs its own salt
@@ -302,6 +330,35 @@ pub fn clock_jump_child(seed: u64, off_file: &str) {
     println!("{}", json!({"real_now": now0, "phases": phases, "salts": salts, "decoys": decoys}));
 }
 
+/// ALL-CAPS identifiers (>= 4 characters) that occur inside string literals of the library's
+/// sources; the location of the sources is taken from the build (CARGO_MANIFEST_DIR of sd-jwt-rs is
+/// not known at run time, so the path dependency recorded in this crate's Cargo.toml is read).
+fn env_names_in_sources() -> Vec<String> {
+    let manifest = concat!(env!("CARGO_MANIFEST_DIR"), "/Cargo.toml");
+    let repo = std::fs::read_to_string(manifest)
+        .ok()
+        .and_then(|t| t.lines().find(|l| l.starts_with("sd-jwt-rs")).and_then(|l| l.split("path = \"").nth(1)).and_then(|x| x.split('"').next()).map(String::from))
+        .unwrap_or_else(|| "/repo".into());
+    let mut names = std::collections::BTreeSet::new();
+    let mut stack = vec![std::path::PathBuf::from(format!("{repo}/src"))];
+    while let Some(d) = stack.pop() {
+        for e in std::fs::read_dir(&d).into_iter().flatten().flatten() {
+            let p = e.path();
+            if p.is_dir() {
+                stack.push(p);
+            } else if p.extension().map(|x| x == "rs").unwrap_or(false) {
+                let text = std::fs::read_to_string(&p).unwrap_or_default();
+                for lit in text.split('"').skip(1).step_by(2) {
+                    if lit.len() >= 4 && lit.len() <= 64 && lit.bytes().all(|b| b.is_ascii_uppercase() || b.is_ascii_digit() || b == b'_') && lit.bytes().any(|b| b.is_ascii_uppercase()) && lit.contains('_') {
+                        names.insert(lit.to_string());
+                    }
+                }
+            }
+        }
+    }
+    names.into_iter().take(64).collect()
+}
+
 /// Parent side of the clock-jump leg.
 fn clock_jump_leg(ctx: &Ctx, l: &mut Local, all_salts: &mut Vec<String>, all_decoys: &mut Vec<String>) -> Value {
     let shim = format!("{}/shim/libvclock.so", ctx.verif_dir);
@@ -316,17 +373,25 @@ fn clock_jump_leg(ctx: &Ctx, l: &mut Local, all_salts: &mut Vec<String>, all_dec
         Ok(e) => e,
         Err(_) => return json!({"status": "skipped: own executable unknown"}),
     };
-    let children: u64 = if ctx.tier == Tier::Quick { 2 } else { 12 };
+    let children: u64 = if ctx.tier == Tier::Quick { 4 } else { 12 };
     let mut out_rows = vec![];
+    let env_names = env_names_in_sources();
+    l.add("clock-jump.env-names-set", env_names.len() as u64);
     for c in 0..children {
         let off_file = format!("{}/.partials/c14-vclock-offset-{}-{c}", ctx.out_dir, std::process::id());
         let _ = std::fs::create_dir_all(format!("{}/.partials", ctx.out_dir));
         let _ = std::fs::write(&off_file, "0");
-        let out = std::process::Command::new(&exe)
-            .args(["C14-vclock", &ctx.seed.wrapping_add(c).to_string(), &off_file])
-            .env("LD_PRELOAD", &shim)
-            .env("VCLOCK_OFFSET_FILE", &off_file)
-            .output();
+        let mut cmd = std::process::Command::new(&exe);
+        cmd.args(["C14-vclock", &ctx.seed.wrapping_add(c).to_string(), &off_file]).env("LD_PRELOAD", &shim).env("VCLOCK_OFFSET_FILE", &off_file);
+        // every second child runs in a hostile ENVIRONMENT: each ALL-CAPS name that occurs as a string
+        // literal in the library's sources (a left-in seed / debug hook would be read from there) is set
+        // to the same small number in all of these children; salts must still never repeat
+        if c % 2 == 1 {
+            for name in &env_names {
+                cmd.env(name, "42");
+            }
+        }
+        let out = cmd.output();
         let _ = std::fs::remove_file(&off_file);
         let v: Option<Value> = out.ok().filter(|o| o.status.success()).and_then(|o| String::from_utf8_lossy(&o.stdout).lines().last().and_then(|l| serde_json::from_str(l).ok()));
         let v = match v {
